@@ -434,8 +434,9 @@ def _minimise_and_write(mod, prop, scn, verdict, seed, known):
         "verdicts": _jsonable(r["verdicts"][:5]),
         "scenario": _jsonable(small),
     }
-    os.makedirs(os.path.join(VERIF, "replays"), exist_ok=True)
-    path = os.path.join(VERIF, "replays", f"{prop}-{seed}-{key[1]}.json")
+    rdir = os.environ.get("VERIF_REPLAY_DIR") or os.path.join(VERIF, "replays")
+    os.makedirs(rdir, exist_ok=True)
+    path = os.path.join(rdir, f"{prop}-{seed}-{key[1]}.json")
     with open(path, "w") as f:
         json.dump(doc, f, indent=1)
     return path
